@@ -202,13 +202,17 @@ def mk(D, s):
 
 def seasoned(alg, D, s, build=None):
     """the algorithm object has served before the judged call: it computed (answers discarded, refusals ignored) a consensus of the same
-    rankings under a scheme twice as expensive, and of the same rankings plus the reverse of one of them under the case's scheme.
+    rankings under a scheme twice as expensive, of the same rankings plus the reverse of one of them under the case's scheme, and of the
+    same rankings listed in the opposite order.
     An algorithm object that remembers anything about an earlier call (a memo of scores, of positions, of the scheme) shows it then."""
     build = build or (lambda raw: Dataset.from_raw_list([[{gen.fwd(e) for e in b} for b in r] for r in raw]))
     first = next((r for r in D if r), None)
     warm = [(D, [[2 * x for x in s[0]], [2 * x for x in s[1]]])]
     if first is not None:
         warm.append(([[list(b) for b in r] for r in D] + [[list(b) for b in reversed(first)]], s))
+    # the same rankings listed in the opposite order, same scheme: an EQUAL dataset (equality ignores the order of the rankings) whose
+    # elements are numbered differently (ids follow the first appearances) - a memo keyed on dataset equality is stale for the judged call
+    warm.append(([[list(b) for b in r] for r in reversed(D)], s))
     for D2, s2 in warm:
         try:
             alg.compute_consensus_rankings(build(D2), ScoringScheme(s2), False)
